@@ -112,13 +112,6 @@ def type7 (salt : Nat) (txt : List Char) : List Char :=
 
 /-- `int(b2a_hex(s.encode()), 16)` for ASCII `s` -/
 def bytesVal (txt : List Char) : Nat := txt.foldl (fun acc c => acc * 256 + c.toNat) 0
-/-- decimal digits of a natural number (`str(n)`), written out so that it can be reasoned about -/
-def decDigitsAux : Nat → Nat → List Char → List Char
-  | 0, _, acc => acc
-  | f + 1, n, acc =>
-    let d := Char.ofNat (48 + n % 10)
-    if n < 10 then d :: acc else decDigitsAux f (n / 10) (d :: acc)
-def decDigits (n : Nat) : List Char := decDigitsAux (n + 1) n []
 
 /-- `str(int(b2a_hex(...), 16))` -/
 def numericOf (txt : List Char) : List Char := decDigits (bytesVal txt)
